@@ -154,6 +154,13 @@ def applyTamper (slots : List (Nat × Bytes)) (ns : List PBase) (cls : String) (
         match decodePairs proof with
         | none => none
         | some os => if os.isEmpty then none else some (ns.set p (os.getD (arg 2 % os.length) {}))
+    | "append" =>
+      match slots.lookup (arg 1) with
+      | none => none
+      | some proof =>
+        match decodePairs proof with
+        | none => none
+        | some os => if os.isEmpty then none else some (ns ++ [os.getD (os.length - 1 - arg 2 % os.length) {}])
     | "drop" => some (ns.take p ++ ns.drop (p + 1))
     | "dup" => some (ns.take (p + 1) ++ ns.drop p)
     | "flip" =>
@@ -441,8 +448,20 @@ def step (s : St) (w : List String) : St × String :=
     let t' := saveRoot Hh s.t
     let node : WN :=
       if lvl = -2 then (if s.cweight > 0 then .hashRef s.croot s.cweight else .nil)
+      else if lvl = -3 then .hashRef s.croot s.cweight
       else copyRoot Hh lvl 0 (normRoot s.t.root)
     ({ s with t := t', cp := some ⟨s.croot, s.cweight, node⟩ }, "ok")
+  | ["cproot", lvl] =>
+    -- a checkpoint copy WITHOUT SaveRoot (lvl -2: NewHashNode(root, weight), nil for weight 0; -3: NewHashNode(root, weight) always)
+    let lvl := lvl.toInt!
+    let node : WN :=
+      if lvl = -2 then (if s.cweight > 0 then .hashRef s.croot s.cweight else .nil)
+      else if lvl = -3 then .hashRef s.croot s.cweight
+      else copyRoot Hh lvl 0 (normRoot s.t.root)
+    ({ s with cp := some ⟨s.croot, s.cweight, node⟩ }, "ok")
+  | ["recopy", lvl] =>
+    -- New(t.CopyRoot(lvl), sameStorage)
+    ({ s with t := { root := normRoot (copyRoot Hh lvl.toInt! 0 (normRoot s.t.root)), store := s.t.store }, cp := none }, "ok")
   | [kind] =>
     if kind = "rollback" ∨ kind = "rollbacktrie" then
       match s.cp with
